@@ -144,6 +144,10 @@ def run(chk, tier):
     probes = []
     for k, (tid, t, init, vals, rty) in enumerate(gen):
         probes.append(InitProbe("init/%s/%d" % (tid, k), "i%d" % k, tid, t, init, vals, rty))
+    nsys = 0
+    for k, (tid, t, init, vals, rty) in enumerate(cinit.systematic(10 if tier == "quick" else None)):
+        probes.append(InitProbe("init/desig-continue/%s/%d" % (tid, k), "d%d" % k, tid, t, init, vals, rty))
+        nsys += 1
     e2._PROBES = probes
     e2._BUILD = vf.build_chibicc()
     with mp.get_context("fork").Pool(vf.NCPU) as pool:
@@ -162,5 +166,6 @@ def run(chk, tier):
     for p in probes[:3]:
         chk.sample(dict(key=p.key, initializer=p.itext[:200]))
     chk.bounds.append("initializers (E2): %d generated (type, spelling) pairs over 16 object types (nested structs, arrays, unions, bit-fields, char arrays, arrays of unknown bound) "
-                      "with designators, brace elision, strings, short lists, trailing commas; every scalar leaf of the static AND the automatic object read back" % len(probes))
+                      "with designators, brace elision, strings, short lists, trailing commas; every scalar leaf of the static AND the automatic object read back; "
+                      "of these %d are the systematic family {D = v, v, v} / {v, D = v, v} for every designator chain D (depth <= 4) into every type" % (len(probes), nsys))
     chk.functions.update(["parse.c:initializer2 & co. (via emitted code/data)", "parse.c:write_gvar_data", "parse.c:create_lvar_init", "codegen.c:emit_data", "codegen.c:ND_MEMZERO"])
